@@ -88,7 +88,10 @@ PROP = {
                    "starting fee rate while it carried one (handleExistingInput / handleUpdateReq replace the params, "
                    "the retry starts from the estimator; ~1e3 per quick run), (b) an input the caller put into a "
                    "second live request (UpdateParams on a published input, or offered again while an old record "
-                   "lives). After an offer of an input the sweeper had given up the baseline restarts. The lifecycle "
+                   "lives). After an offer of an input the sweeper had given up the baseline restarts. "
+                   "The harness, as caller, keeps reading every result channel SweepInput / UpdateParams return (a "
+                   "caller that does not read blocks the collector when the sweeper signals an input twice from one "
+                   "handler, counted as life_result_channels_signalled_twice; liveness is not part of C18). The lifecycle "
                    "ceiling oracle skips requests whose inputs carry no caller-attached deadline (default deadline) "
                    "or different ones. "
                    "Groupings inside lnd follow Go map iteration and an unstable sort, so counters vary by ~0.01% "
